@@ -330,14 +330,34 @@ func (t *trans) expr(e cExpr) (string, vtype) {
 			bs = append(bs, fmt.Sprintf("(%s %s)", name, vt.sort))
 			nv[b.Name] = tvar{name, vt}
 			nb[name] = true
+			// a variable of pointer type ranges over objects: nil is excluded (the address of a field of nil is
+			// not meaningful in the model)
+			if vt.gt != nil {
+				if _, isPtr := vt.gt.Underlying().(*types.Pointer); isPtr {
+					guards = append(guards, fmt.Sprintf("(distinct %s nil)", name))
+				}
+			}
 		}
 		tt := t.withVars(nv)
 		tt.bound = nb
 		body := tt.formula(x.Body)
-		_ = guards
+		if len(guards) > 0 {
+			if x.Forall {
+				body = implies(and(guards...), body)
+			} else {
+				body = and(append(guards, body)...)
+			}
+		}
 		q := "exists"
 		if x.Forall {
 			q = "forall"
+		}
+		var bnames []string
+		for _, b := range x.Vars {
+			bnames = append(bnames, "q_"+b.Name)
+		}
+		if pats := choosePatterns(body, bnames); pats != "" {
+			return fmt.Sprintf("(%s (%s) (! %s %s))", q, strings.Join(bs, " "), body, pats), vtype{"Bool", nil}
 		}
 		return fmt.Sprintf("(%s (%s) %s)", q, strings.Join(bs, " "), body), vtype{"Bool", nil}
 	case *cCall:
@@ -677,7 +697,7 @@ func (w *world) specFootprints() map[string][]string {
 	for _, n := range sortedKeys(w.db.Specs) {
 		sd := w.db.Specs[n]
 		calls[n] = map[string]bool{}
-		if sd.Body == nil {
+		if sd.Body == nil && sd.Where == nil {
 			continue
 		}
 		c := newSMT(w)
@@ -695,8 +715,16 @@ func (w *world) specFootprints() map[string][]string {
 			for _, p := range sd.Params {
 				t.vars[p.Name] = tvar{"sp_" + p.Name, t.resolveType(p.Type)}
 			}
-			collectCalls(sd.Body, w.db, calls[n])
-			t.expr(sd.Body)
+			if sd.Body != nil {
+				collectCalls(sd.Body, w.db, calls[n])
+				t.expr(sd.Body)
+			}
+			if sd.Where != nil {
+				st := &trans{c: c, pkg: sd.Pkg}
+				t.vars["result"] = tvar{"sp_result", st.resolveType(sd.Ret)}
+				collectCalls(sd.Where, w.db, calls[n])
+				t.expr(sd.Where)
+			}
 		}()
 		for k := range t.reads {
 			reads[n][k] = true
@@ -803,6 +831,26 @@ func (t *trans) specApp(sd *specDef, x *cCall) (string, vtype) {
 	app := sym
 	if len(args) > 0 {
 		app = "(" + sym + " " + strings.Join(args, " ") + ")"
+	}
+	if sd.Where != nil && t.inSpec != "@where" && !c.unfolded["where|"+app] {
+		mentionsBound := false
+		for b := range t.bound {
+			for _, a := range args {
+				if strings.Contains(a, b) {
+					mentionsBound = true
+				}
+			}
+		}
+		if !mentionsBound {
+			c.unfolded["where|"+app] = true
+			c.usedAxioms["definitional axiom: spec "+sd.Name+" is characterised by its 'where' clause (existence and uniqueness argued in the contract file)"] = true
+			bt := &trans{c: c, pkg: sd.Pkg, vars: map[string]tvar{}, cur: t.cur, old: t.old, depth: 0, inSpec: "@where"}
+			for i, p := range sd.Params {
+				bt.vars[p.Name] = tvar{plain[i], st.resolveType(p.Type)}
+			}
+			bt.vars["result"] = tvar{app, ret}
+			c.assume(bt.formula(sd.Where))
+		}
 	}
 	// unfold the definition for this instance (one level per unit of budget), unless it mentions bound variables
 	if sd.Body != nil && t.depth > 0 && !c.unfolded[app] {
@@ -1043,4 +1091,126 @@ func (c *smtctx) mayPointInto(argT, objT types.Type) bool {
 		}
 	}
 	return false
+}
+
+// choosePatterns picks E-matching triggers for a quantified formula: heap reads, slice element addresses and
+// spec applications that mention the bound variables. Addresses are built from datatype selectors (fld/elem are
+// macros), on which the solvers' own trigger inference does badly.
+func choosePatterns(body string, bound []string) string {
+	type cand struct {
+		term string
+		vars map[string]bool
+	}
+	var cands []cand
+	seen := map[string]bool{}
+	// enumerate parenthesised subterms
+	var stack []int
+	for i := 0; i < len(body); i++ {
+		switch body[i] {
+		case '"':
+			j := i + 1
+			for j < len(body) && body[j] != '"' {
+				j++
+			}
+			i = j
+		case '(':
+			stack = append(stack, i)
+		case ')':
+			if len(stack) == 0 {
+				continue
+			}
+			start := stack[len(stack)-1]
+			stack = stack[:len(stack)-1]
+			sub := body[start : i+1]
+			head := sub[1:]
+			if k := strings.IndexAny(head, " )"); k >= 0 {
+				head = head[:k]
+			}
+			if !(head == "select" || head == "selem" || strings.HasPrefix(head, "spec_")) {
+				continue
+			}
+			if strings.Contains(sub, "(forall ") || strings.Contains(sub, "(exists ") || strings.Contains(sub, "(ite ") || strings.Contains(sub, "(store ") {
+				continue
+			}
+			vs := map[string]bool{}
+			for _, b := range bound {
+				if containsIdent(sub, b) {
+					vs[b] = true
+				}
+			}
+			if len(vs) == 0 || seen[sub] {
+				continue
+			}
+			seen[sub] = true
+			cands = append(cands, cand{sub, vs})
+		}
+	}
+	if len(cands) == 0 {
+		return ""
+	}
+	// drop candidates that contain a smaller candidate with the same variables (keep the innermost reads)
+	var keep []cand
+	for i, c := range cands {
+		inner := false
+		for j, d := range cands {
+			if i != j && len(d.term) < len(c.term) && strings.Contains(c.term, d.term) && len(d.vars) == len(c.vars) {
+				inner = true
+			}
+		}
+		if !inner {
+			keep = append(keep, c)
+		}
+	}
+	var pats []string
+	for _, c := range keep {
+		if len(c.vars) == len(bound) && len(pats) < 4 {
+			pats = append(pats, ":pattern ("+c.term+")")
+		}
+	}
+	if len(pats) > 0 {
+		return strings.Join(pats, " ")
+	}
+	// multi-pattern: greedy cover
+	covered := map[string]bool{}
+	var multi []string
+	for len(covered) < len(bound) {
+		best := -1
+		gain := 0
+		for i, c := range keep {
+			g := 0
+			for v := range c.vars {
+				if !covered[v] {
+					g++
+				}
+			}
+			if g > gain || (g == gain && g > 0 && best >= 0 && len(c.term) < len(keep[best].term)) {
+				best, gain = i, g
+			}
+		}
+		if best < 0 || gain == 0 {
+			return ""
+		}
+		multi = append(multi, keep[best].term)
+		for v := range keep[best].vars {
+			covered[v] = true
+		}
+	}
+	return ":pattern (" + strings.Join(multi, " ") + ")"
+}
+
+func containsIdent(s, id string) bool {
+	for i := 0; ; {
+		k := strings.Index(s[i:], id)
+		if k < 0 {
+			return false
+		}
+		k += i
+		end := k + len(id)
+		okL := k == 0 || strings.ContainsRune(" ()", rune(s[k-1]))
+		okR := end == len(s) || strings.ContainsRune(" ()", rune(s[end]))
+		if okL && okR {
+			return true
+		}
+		i = end
+	}
 }
